@@ -253,8 +253,13 @@ def _planar_bond_from_coords(
     if not are_planar(coords):
         return None
 
-    a = (coords[0] - coords[1]) / np.linalg.norm(coords[0] - coords[1])
-    b = (coords[4] - coords[5]) / np.linalg.norm(coords[4] - coords[5])
+    # compare the substituent directions perpendicular to the bond axis
+    # (in small rings they have a large component along the bond)
+    axis = (coords[3] - coords[2]) / np.linalg.norm(coords[3] - coords[2])
+    a = coords[0] - coords[1]
+    b = coords[4] - coords[5]
+    a = a - np.dot(a, axis) * axis
+    b = b - np.dot(b, axis) * axis
     result = int(np.sign(np.dot(a, b)))
 
     if result == -1:
